@@ -178,6 +178,83 @@ let dump (s2 : state2) : string =
       (List.filter (fun (_, x) -> String.length x >= 1 && x.[0] = c && (String.length x < 2 || (x.[1] >= '0' && x.[1] <= '9'))) ext)) in
   String.concat "|" (l1 :: grp1 'G' @ grp1 'X' @ grp1 'T' @ List.concat_map grp ["Rt"; "Ru"; "Re"; "Ra"; "As"; "Rc"; "Bb"])
 
+(* ---- the layout model of the C01/C07 stream (three-way agreement on the geometry oracle) -------- *)
+module C1 = struct
+  open C01_model
+  let rec pos_of_z (n : BZ.t) : positive =
+    if BZ.equal n BZ.one then XH
+    else if BZ.testbit n 0 then XI (pos_of_z (BZ.shift_right n 1))
+    else XO (pos_of_z (BZ.shift_right n 1))
+  let coqz_of_z (n : BZ.t) : z =
+    if BZ.sign n = 0 then Z0 else if BZ.sign n > 0 then Zpos (pos_of_z n) else Zneg (pos_of_z (BZ.neg n))
+  let cz s = coqz_of_z (BZ.of_string s)
+  let rec nat_of_int n = if n <= 0 then O else S (nat_of_int (n - 1))
+  let rec int_of_nat = function O -> 0 | S n -> 1 + int_of_nat n
+  let cn s = nat_of_int (int_of_string s)
+  let cause_s = function
+    | Duplicated -> "Duplicated" | NotFound -> "NotFound" | Negative -> "Negative"
+    | OutOfBounds -> "OutOfBounds" | IsZero -> "IsZero" | IsNil -> "IsNil"
+    | NoSpaceLeft -> "NoSpaceLeft" | Intersect -> "Intersect" | TooSmall -> "TooSmall" | TooBig -> "TooBig"
+  let result_s = function
+    | ROk -> "ok" | RErr c -> "err:" ^ cause_s c | RShift _ -> "shift" | RPanic -> "panic" | RInvalid -> "invalid"
+  (* the subset of the C01 vocabulary the C04 harness writes (props/C04/harness/c01bridge.go) *)
+  let parse_op (words : string list) : op =
+    match words with
+    | ["newmsg"; n] -> ONewMsg (cz n)
+    | ["newstd"; n] -> ONewStd (cz n)
+    | ["newenum"] -> ONewEnum
+    | ["newenumsig"; e] -> ONewEnumSig (cn e)
+    | ["newmux"; c; g] -> ONewMux (cz c, cz g)
+    | ["append"; m; x] -> OAppend (cn m, cn x)
+    | ["insert"; m; x; b] -> OInsert (cn m, cn x, cz b)
+    | ["remove"; m; x] -> ORemove (cn m, cn x)
+    | ["removeall"; m] -> ORemoveAll (cn m)
+    | ["settype"; x; n] -> OSetType (cn x, cz n)
+    | ["setenum"; x; e] -> OSetEnum (cn x, cn e)
+    | ["addvalue"; e; i] -> OAddValue (cn e, cz i)
+    | ["removevalue"; e; v] -> ORemoveValue (cn e, cn v)
+    | ["removeallvalues"; e] -> ORemoveAllValues (cn e)
+    | ["updateindex"; v; i] -> OUpdateIndex (cn v, cz i)
+    | ["muxinsert"; u; x; b; g] ->
+      let ids = if g = "-" then [] else List.map cz (String.split_on_char ',' g) in
+      OMuxInsert (cn u, cn x, cz b, ids)
+    | ["muxremove"; u; x] -> OMuxRemove (cn u, cn x)
+    | ["muxcleargroup"; u; g] -> OMuxClearGroup (cn u, cz g)
+    | ["muxclearall"; u] -> OMuxClearAll (cn u)
+    | l -> failwith ("bad C01 op: " ^ String.concat " " l)
+  (* rebuild the function-valued fields from arrays so that closure chains do not grow with the
+     history (as in props/C01/driver/c01_driver.ml; extensionally the same state) *)
+  let normalise (s : state) : state =
+    let ns = int_of_nat s.nsig and nm = int_of_nat s.nmsg and ne = int_of_nat s.nenum and nv = int_of_nat s.nval in
+    let tab n f dflt =
+      let a = Array.init n (fun i -> f (nat_of_int i)) in
+      fun x -> let i = int_of_nat x in if i < n then a.(i) else dflt x in
+    let tab2 n f dflt =
+      let a = Array.init n (fun i -> Array.init n (fun j -> f (nat_of_int i) (nat_of_int j))) in
+      fun u x -> let i = int_of_nat u and j = int_of_nat x in if i < n && j < n then a.(i).(j) else dflt u x in
+    let i0 = init in
+    { s with
+      kind = tab ns s.kind i0.kind; rel = tab ns s.rel i0.rel; pmsg = tab ns s.pmsg i0.pmsg; pmux = tab ns s.pmux i0.pmux;
+      usigs = tab ns s.usigs i0.usigs; unames = tab ns s.unames i0.unames;
+      ugids = tab2 ns s.ugids i0.ugids; ufixed = tab2 ns s.ufixed i0.ufixed; ugroups = tab ns s.ugroups i0.ugroups;
+      gbytes = tab nm s.gbytes i0.gbytes; glsize = tab nm s.glsize i0.glsize; glay = tab nm s.glay i0.glay;
+      gsigs = tab nm s.gsigs i0.gsigs; gnames = tab nm s.gnames i0.gnames;
+      emax = tab ne s.emax i0.emax; emin = tab ne s.emin i0.emin; evals = tab ne s.evals i0.evals;
+      eidx = tab ne s.eidx i0.eidx; erefs = tab ne s.erefs i0.erefs;
+      vidx = tab nv s.vidx i0.vidx; vpar = tab nv s.vpar i0.vpar }
+  let st = ref init
+  let reset () = st := init
+  (* one C line: returns (agrees, what the model said) *)
+  let run (words : string list) (cls : string) : bool * string =
+    let (s', r) = step !st (parse_op words) in
+    st := normalise s';
+    let ok = match cls, r with
+      | "ok", ROk -> true
+      | "layout", RErr _ -> true
+      | _ -> false in
+    (ok, result_s r)
+end
+
 let split_ws s = List.filter (fun x -> x <> "") (String.split_on_char ' ' s)
 
 let () =
@@ -191,6 +268,7 @@ let () =
   let shown_result = ref false and shown_state = ref false and printed = ref 0 in
   let bad_hist = ref 0 and hist_bad = ref false in
   let end_line = ref None in
+  let c_cmp = ref 0 and c_bad = ref 0 and c_shown = ref 0 and c_dead = ref false in
   let report kind impl model =
     incr bad;
     if not !hist_bad then (hist_bad := true; incr bad_hist);
@@ -207,7 +285,27 @@ let () =
         let body = String.sub line 2 (n - 2) in
         match line.[0] with
         | 'H' -> hist := int_of_string (String.trim body); st := init2; stepn := 0; incr cases;
-          shown_result := false; shown_state := false; hist_bad := false
+          shown_result := false; shown_state := false; hist_bad := false; C1.reset (); c_dead := false
+        | 'C' ->
+          (* "C <c01 op> => ok|layout": the geometry decision of the implementation against the C01 model;
+             after a disagreement the two states differ, the rest of the history is not compared *)
+          incr c_cmp;
+          if not !c_dead then begin
+            let words = split_ws body in
+            let rec cut acc = function
+              | "=>" :: [cls] -> (List.rev acc, cls)
+              | x :: r -> cut (x :: acc) r
+              | [] -> failwith ("bad C line: " ^ body) in
+            let (opw, cls) = cut [] words in
+            let (ok, said) = C1.run opw cls in
+            if not ok then begin
+              incr c_bad; c_dead := true;
+              if !c_shown < 25 then begin
+                incr c_shown;
+                Printf.printf "C01-DISAGREES hist=%d step=%d after op=[%s]: %s: implementation %s, C01 model %s\n" !hist !stepn !opline (String.concat " " opw) cls said
+              end
+            end
+          end
         | 'O' ->
           incr stepn; incr steps; opline := body;
           let (s', r) = step2 !st (parse_op (split_ws body)) in
@@ -235,6 +333,7 @@ let () =
   Printf.printf "CASES %d STEPS %d MISMATCHES %d\n" !cases !steps !bad;
   Printf.printf "KINDS result=%d state=%d histories=%d\n" !bad_result !bad_state !bad_hist;
   Printf.printf "COMPARED results=%d states=%d\n" !cmp_result !cmp_state;
+  Printf.printf "C01 compared=%d disagreements=%d\n" !c_cmp !c_bad;
   (match !end_line with
    | Some e -> Printf.printf "END %s\n" e
    | None -> Printf.printf "NOEND\n")
